@@ -1127,11 +1127,15 @@ func (im *impl) oracle(step int, d *Dump) []OracleFail {
 			continue
 		}
 		cur, has := vipOf[n]
+		px := ""
+		if s.Kind == "connect-proxy" {
+			px = ":proxy" // the instance is a sidecar proxy: n is its destination, not its own name
+		}
 		switch {
 		case !has:
-			fail("vip-advertised", "service-has-no-assignment", fmt.Sprintf("%s/%s advertises %d for %q which has no virtual IP", s.Node, s.ID, s.VIP, n))
+			fail("vip-advertised", "service-has-no-assignment"+px, fmt.Sprintf("%s/%s advertises %d for %q which has no virtual IP", s.Node, s.ID, s.VIP, n))
 		case cur != s.VIP:
-			fail("vip-advertised", "differs-from-assignment", fmt.Sprintf("%s/%s advertises %d, %q has %d", s.Node, s.ID, s.VIP, n, cur))
+			fail("vip-advertised", "differs-from-assignment"+px, fmt.Sprintf("%s/%s advertises %d, %q has %d", s.Node, s.ID, s.VIP, n, cur))
 		}
 	}
 	for _, o := range d.Other {
@@ -1285,11 +1289,29 @@ func (t *tracker) observeCmd(c *Cmd, before *Dump) {
 		native          bool
 	}
 	cur := map[string]def{}
+	ups := map[string][]string{}
 	for i := range before.Services {
 		r := &before.Services[i]
 		cur[r.Node+"/"+r.ID] = def{r.Name, r.Kind, r.Dest, r.Native}
+		ups[r.Node+"/"+r.ID] = r.Ups
+	}
+	pairsTwice := func() {
+		pairs := map[string]int{}
+		for k, d := range cur {
+			if d.kind != "connect-proxy" && !d.native {
+				continue
+			}
+			for _, u := range uniq(sortedCopy(ups[k])) {
+				pairs[u+"|"+d.dest]++
+				if pairs[u+"|"+d.dest] > 1 {
+					t.flags["pair-declared-twice"] = true
+				}
+			}
+		}
 	}
 	write := func(node string, sp *SvcSpec) {
+		defer pairsTwice()
+		ups[node+"/"+sp.ID] = sp.Ups
 		d := def{sp.Name, sp.Kind, "", sp.Native}
 		if sp.Kind == "connect-proxy" {
 			d.dest = sp.Dest
@@ -1343,9 +1365,8 @@ func (t *tracker) cause(f *OracleFail) string {
 			return "instance-renamed-to-or-from-consul"
 		}
 	case "vip-advertised":
-		// the failing instance is named at the start of the detail
-		inst := strings.SplitN(f.What, " ", 2)[0]
-		if _, ok := t.stale[inst]; ok && (f.Sub == "service-has-no-assignment" || f.Sub == "differs-from-assignment") {
+		// the class the partial theorem excludes: the advertising instance is a sidecar proxy
+		if f.Sub == "service-has-no-assignment:proxy" || f.Sub == "differs-from-assignment:proxy" {
 			return "proxy-outlived-assignment"
 		}
 	case "topology":
@@ -1931,7 +1952,7 @@ func main() {
 
 	n := *count
 	if n == 0 {
-		n = 900
+		n = 700
 		if *tier == "thorough" {
 			n = 12000
 		}
